@@ -18,7 +18,8 @@ static void vio(const char* op, const char* what, const char* fmt, ...) {
     va_list ap; va_start(ap, fmt); vsnprintf(b, sizeof b, fmt, ap); va_end(ap);
     pv_violation(key, "%s", b); g_bad = true;
 }
-static void inject_tag(int tag) { polyseed_dependency t; pv_world_table(&t, tag, true, true, true); pv_api_inject(&t); M_tag = tag; }
+static int g_libc_alloc;       /* this walk pairs libc malloc (alloc entry NULL) with an injected free */
+static void inject_tag(int tag) { polyseed_dependency t; pv_world_table(&t, tag, true, !g_libc_alloc, true); pv_api_inject(&t); M_tag = tag; }
 static void check_tags(const char* op) {
     for (int i = 0; i < pv_w->nev; ++i) if (pv_w->ev[i].tag != M_tag) { vio(op, "stale-dependency", "an event of this call carries the tag of a previously injected table"); return; }
 }
@@ -34,7 +35,7 @@ static void observe_slot(int i, const char* after, bool deep) {
 }
 static void observe_others(int except, const char* after, pv_rng* r) {
     for (int i = 0; i < NSLOT; ++i) if (i != except && S[i].live) observe_slot(i, after, pv_randn(r, 8) == 0);
-    if (pv_ledger_live() != nlive()) vio(after, "ledger", "%d blocks live, the model holds %d seeds", pv_ledger_live(), nlive());
+    if (!g_libc_alloc && pv_ledger_live() != nlive()) vio(after, "ledger", "%d blocks live, the model holds %d seeds", pv_ledger_live(), nlive());
 }
 static void put(int i, polyseed_data* s, const pv_mseed* m) { S[i].live = true; S[i].s = s; S[i].m = *m; g_had_ctor = true; }
 static void seq(uint64_t v) { g_seqhash = pv_mix(g_seqhash, v); }
@@ -144,7 +145,8 @@ static void op_free(pv_rng* r, bool null) {
     if (null) { pv_api_free(NULL); if (pv_ev_count(PV_EV_FREE) || pv_ev_count(PV_EV_MEMZERO)) vio("free", "null", "free(NULL) reached the dependencies"); seq(0x81); return; }
     int i = live_slot(r); if (i < 0) return;
     pv_api_free(S[i].s); check_tags("free"); seq(0x80); PV_COUNT("ops.free", 1);
-    for (int k = 0; k < pv_w->nev; ++k) if (pv_w->ev[k].kind == PV_EV_FREE && (pv_w->ev[k].a & (PV_FREE_FOREIGN | PV_FREE_DOUBLE))) vio("free", "ledger", "foreign or double free");
+    if (pv_ev_count(PV_EV_FREE) != 1) vio("free", "injected-free-not-called", "polyseed_free called the injected free %d times (table: alloc %s, free injected)", pv_ev_count(PV_EV_FREE), g_libc_alloc ? "NULL" : "injected");
+    for (int k = 0; k < pv_w->nev; ++k) if (pv_w->ev[k].kind == PV_EV_FREE && !g_libc_alloc && (pv_w->ev[k].a & (PV_FREE_FOREIGN | PV_FREE_DOUBLE))) vio("free", "ledger", "foreign or double free");      /* with libc malloc the ledger knows no block (ASan watches that path) */
     S[i].live = false; S[i].s = NULL; g_state_changed = true;
 }
 static void op_enable(pv_rng* r, unsigned arg) {
@@ -192,7 +194,9 @@ static void init(void) {
 /* ---------------------------------------------------------------- (a) random walks */
 static uint64_t n_walks(void) { return pv_scaled(4000, 150000); }
 static void run_walks(uint64_t idx, pv_rng* rng) {
-    reset_all();
+    reset_all();                                         /* frees what the previous walk left, under the previous table */
+    g_libc_alloc = (idx % 8 == 5); pv_w->foreign_passthrough = g_libc_alloc;
+    if (g_libc_alloc) { inject_tag(0); PV_COUNT("walks.with_libc_malloc_and_injected_free", 1); }
     pv_w->reuse_mode = (int)(idx & 1);         /* every other walk: the allocator hands the most recently freed block out again */
     if (pv_w->reuse_mode) PV_COUNT("walks.with_address_reusing_allocator", 1);
     pv_w->align8_mode = (int)((idx >> 1) & 1);
@@ -200,7 +204,7 @@ static void run_walks(uint64_t idx, pv_rng* rng) {
     int steps = 50 + (int)pv_randn(rng, 151);
     bool after_ctor_change = false;
     for (int k = 0; k < steps && !g_bad; ++k) {
-        uint32_t op = pv_randn(rng, 100); bool armed = pv_randn(rng, 25) == 0;
+        uint32_t op = pv_randn(rng, 100); bool armed = pv_randn(rng, 25) == 0 && !g_libc_alloc;      /* libc malloc cannot be told to fail */
         bool had = g_had_ctor; g_state_changed = false;
         int target = -2;
         g_arm_next = armed && op >= 42 && op < 70;
@@ -222,6 +226,7 @@ static void run_walks(uint64_t idx, pv_rng* rng) {
         if (had && g_state_changed) after_ctor_change = true;
         observe_others(target, "step", rng);
     }
+    if (g_libc_alloc) { for (int i = 0; i < NSLOT; ++i) if (S[i].live) { pv_api_free(S[i].s); S[i].live = false; } g_libc_alloc = 0; pv_w->foreign_passthrough = 0; inject_tag(0); }
     pv_w->align8_mode = 0; pv_w->reuse_mode = 0; if (pv_w->cache_ptr) { free(pv_w->cache_base); pv_w->cache_ptr = NULL; }
     if (!g_bad && after_ctor_change) { PV_DISTINCT("nontrivial", g_seqhash); PV_COUNT("walks.matched_model", 1); }
     if (idx < 3) pv_sample("walk", "%d operations, %d seeds live at the end, enabled mask %u, table %c", steps, nlive(), M_mask, 'A' + M_tag);
